@@ -658,7 +658,10 @@ func (tx *Transaction) GetField(rv ruleVariableParams) []types.MatchData {
 		isException := false
 		lkey := strings.ToLower(c.Key())
 		for _, ex := range rv.Exceptions {
-			if (ex.KeyRx != nil && ex.KeyRx.MatchString(lkey)) || strings.ToLower(ex.KeyStr) == lkey || (ex.KeyStr == "" && ex.KeyRx == nil) {
+			// An exception with a regular expression is decided by the expression alone: a run-time
+			// exclusion by regex carries an empty KeyStr, which must not exclude the entry whose key
+			// is empty (nor does it mean "the whole variable").
+			if (ex.KeyRx != nil && ex.KeyRx.MatchString(lkey)) || (ex.KeyRx == nil && (strings.ToLower(ex.KeyStr) == lkey || ex.KeyStr == "")) {
 				isException = true
 				break
 			}
